@@ -230,7 +230,7 @@ func errClass(e string) string {
 		}
 		b.WriteString(w)
 		b.WriteByte(' ')
-		if b.Len() > 40 {
+		if b.Len() > 70 {
 			break
 		}
 	}
